@@ -58,6 +58,25 @@ def run_function(model: Model, cname: str, mod: str, subject_kind: str, pattern_
     return paths(model, body)
 
 
+LITERAL_PREDICATES = {"isalnum", "isalpha", "isdigit", "isdecimal", "isnumeric", "isidentifier"}
+
+
+def literal_shortcut(run: Any, cname: str, p: Any, s: Any, res: Any) -> bool:
+    """A path that skips the engine is the same function when the pattern is known to be free of metacharacters
+    (a str predicate that admits only letters, digits, '_' held on it) and the result is pattern == subject for
+    match / pattern in subject for search."""
+    from ..harness import rel_of
+
+    w = run.ctx.world
+    if not any(isinstance(k, tuple) and k[0] == "strpred" and k[1] == p.id and k[2] in LITERAL_PREDICATES and v is True for k, v in w.items()):
+        return False
+    if cname == "Match":
+        rel = rel_of(run.ctx, p, s)
+        return rel is not None and res is (rel == "eq")
+    v = w.get(("in_str", s.id, repr(p)))
+    return v is not None and res is v
+
+
 def check_functions(model: Model, report: Report) -> None:
     for cname, mod in (("Match", "match"), ("Search", "search")):
         ci = model.cls(f"function_extensions.{mod}.{cname}")
@@ -109,6 +128,8 @@ def check_functions(model: Model, report: Report) -> None:
                         continue
                     # valid I-Regexp string pattern
                     if not calls:
+                        if sk == "str" and literal_shortcut(run, cname, p, s, res):
+                            continue
                         if sk == "str":
                             probs["no-engine"] = ("R11.1", f"{mod}() never consults the regex engine for a string subject and a valid pattern")
                         elif res is not False:
